@@ -151,7 +151,12 @@ impl Sys {
             Op::AliasesFor(p) => (Ret::Keys(self.reg.aliases_for(pid(p)).iter().filter_map(|s| unkey(s)).collect()), None),
             Op::Len => (Ret::N(self.reg.len()), None),
             Op::Broadcast(tok) => {
-                let path = format!("/bcast/{tok}");
+                // the given path is delivered verbatim, whatever it looks like (rooted, unrooted, with escapes, non-ASCII)
+                let path = match tok % 7 {
+                    4 => format!("bcast.{tok}"),
+                    5 => format!("é/{tok}/~1x"),
+                    _ => format!("/bcast/{tok}"),
+                };
                 // now and then a broadcast whose body fails to serialize part-way (JSON object with non-string keys) runs
                 // first on the same thread: it must deliver nothing and must not affect the following broadcast
                 let mut bad_problem: Option<String> = None;
